@@ -49,17 +49,29 @@ def generate(src):
         if len(cs) != 1: raise Unsupported(f"{qual}: expected exactly one call that builds the receiver, found {len(cs)}")
         kw2 = {k.arg: k.value for k in cs[0].keywords if k.arg is not None}
         params = [a_.arg for a_ in fd2.args.args + fd2.args.kwonlyargs]
-        s0 = State(); s0.env = {p_: fresh(p_) for p_ in params}
+        s0 = State(); s0.env = {p_: fresh(p_) for p_ in params}; given = dict(s0.env)
+        # the keyword expressions are evaluated in the entry environment: a parameter that the body re-binds before the call no longer holds what the caller gave.
+        # Its value at the call is then unknown here (approximation: a refutation is left to the native driver, a proof is not claimed).
+        rebound = {n_.id for n_ in ast.walk(fd2) if isinstance(n_, ast.Name) and isinstance(n_.ctx, ast.Store) and n_.id in params}
+        for p_ in rebound: s0.env[p_] = fresh(p_ + '_rebound'); approx(s0, f"{qual}: parameter `{p_}` is re-bound in the body before the receiver is built")
         for opt, (par, props) in want.items():
             if par not in params: continue          # the entry point does not offer this option
             if opt not in kw2:
                 oblige(s0, f"{what}/receiver option {opt}: the `{par}` given to {qual.split('.')[0]} is passed on  [{props}]", BoolVal(False)); continue
             s1 = s0.fork()
-            ex.ev(kw2[opt], s1, lambda s, v, opt=opt, par=par, props=props: (oblige(s, f"{what}/receiver option {opt} == the `{par}` given to {qual.split('.')[0]}  [{props}]", to_val(v) == s0.env[par]), reach(s, f"{what}/reach@{opt}")),
+            ex.ev(kw2[opt], s1, lambda s, v, opt=opt, par=par, props=props: (oblige(s, f"{what}/receiver option {opt} == the `{par}` given to {qual.split('.')[0]}  [{props}]", to_val(v) == given[par]), reach(s, f"{what}/reach@{opt}")),
                   {'exc': lambda s, x: None})
     handover('taskiq/api/receiver.py', 'run_receiver_task', {'max_async_tasks': ('max_async_tasks', 'C03/C04'), 'max_prefetch': ('max_prefetch', 'C04'), 'propagate_exceptions': ('propagate_exceptions', 'C12'),
                                                                'validate_params': ('validate_params', 'C08'), 'ack_type': ('ack_time', 'C02')}, 'run_receiver_task')
     handover('taskiq/brokers/inmemory_broker.py', 'InMemoryBroker.__init__', {'max_async_tasks': ('max_async_tasks', 'C03/C04'), 'propagate_exceptions': ('propagate_exceptions', 'C12'), 'validate_params': ('cast_types', 'C08')}, 'InMemoryBroker')
+    # the receiver the broker uses is the one __init__ built: a method that assigns self.receiver again replaces it by one whose options this unit has not
+    # seen (approximation: left to the native driver, which reads the options of the receiver in use after startup())
+    imt = src.tree('taskiq/brokers/inmemory_broker.py')
+    for cd_ in [n_ for n_ in imt.body if isinstance(n_, ast.ClassDef) and n_.name == 'InMemoryBroker']:
+        for fd_ in [n_ for n_ in cd_.body if isinstance(n_, (ast.FunctionDef, ast.AsyncFunctionDef)) and n_.name != '__init__']:
+            if any(isinstance(x, ast.Attribute) and isinstance(x.ctx, ast.Store) and x.attr == 'receiver' for x in ast.walk(fd_)):
+                sx = State(); approx(sx, f"InMemoryBroker.{fd_.name} replaces self.receiver")
+                oblige(sx, f"InMemoryBroker.{fd_.name}/receiver: the receiver in use keeps the options given to the broker (max_async_tasks, propagate_exceptions, cast_types)  [C03/C04/C12/C08]", BoolVal(False))
     # ---------------- Receiver.__init__: the options are stored as given (callback / run_task / prefetcher / runner read them back from self)
     RREL = 'taskiq/receiver/receiver.py'; init = src.func(RREL, 'Receiver.__init__')
     class ExI(Exec):
